@@ -124,6 +124,10 @@ type LogEnv struct {
 	// rendering of the committed truth (used when storage is adversarial and a
 	// whole-store audit would be meaningless).
 	AuditUploads bool
+	// NS selects the bucket (object-key namespace) the monitors and audits
+	// look at; calls of instances attached to another bucket go to
+	// onForeignBucket.
+	NS string
 	truthMC      *merkleCache
 	auditN       int64
 	pubAudits    int64
@@ -498,6 +502,10 @@ func identity(pe *ctlog.PendingLogEntry) string {
 
 func (e *LogEnv) monitor(w *World, c *Call) {
 	// called under w.mu
+	if c.NS != e.NS && (c.Kind == OpUpload || c.Kind == OpDiscard) {
+		e.onForeignBucket(w, c)
+		return
+	}
 	switch c.Kind {
 	case OpLockReplace, OpLockCreate:
 		if c.Applied && c.LogID == e.LogID {
@@ -509,6 +517,33 @@ func (e *LogEnv) monitor(w *World, c *Call) {
 		}
 	case OpDiscard:
 		e.onDiscard(w, c)
+	}
+}
+
+// onForeignBucket judges object writes of an instance that is attached to a
+// second bucket (same key, same lock store): whatever it publishes there must
+// have been committed to the shared lock store first, and it may discard only
+// staging bundles.
+func (e *LogEnv) onForeignBucket(w *World, c *Call) {
+	e.mu.Lock()
+	defer e.mu.Unlock()
+	if c.Kind == OpDiscard {
+		if !strings.HasPrefix(c.Key, "staging/") {
+			e.violate("discard-non-staging:"+keyClass(c.Key), "Discard issued for %q (second bucket), which is not a staging bundle", c.Key)
+		}
+		return
+	}
+	if !c.Applied || c.Key != "checkpoint" {
+		return
+	}
+	e.R.Count("second_bucket_publications", 1)
+	sth, err := refVerifyRFC6962Checkpoint(c.Data, e.Name, e.Key.Public())
+	if err != nil {
+		e.violate("published-unverifiable", "checkpoint published to the second bucket does not verify: %v", err)
+		return
+	}
+	if cs, ok := e.committed[string(c.Data)]; !ok || cs >= c.Seq {
+		e.violate("published-before-lock-commit", "checkpoint of size %d became readable in the second bucket without having been committed to the lock store first", sth.Size)
 	}
 }
 
@@ -567,7 +602,7 @@ func (e *LogEnv) onUpload(w *World, c *Call) {
 	e.mu.Lock()
 	defer e.mu.Unlock()
 	// Immutability of everything but the mutable singletons.
-	vs := w.Objs[c.Key]
+	vs := w.Objs[e.NS+c.Key]
 	if len(vs) >= 2 {
 		prev := vs[len(vs)-2]
 		if !prev.Deleted && (prev.Opts.Immutable || strings.HasPrefix(c.Key, "tile/") || strings.HasPrefix(c.Key, "issuer/") || strings.HasPrefix(c.Key, "staging/")) && prev.By != "tamper" {
@@ -701,7 +736,7 @@ func (e *LogEnv) onDiscard(w *World, c *Call) {
 		return
 	}
 	var pubSize int64 = -1
-	if v := w.cur("checkpoint"); v != nil {
+	if v := w.cur(e.NS + "checkpoint"); v != nil {
 		if sth, err := refVerifyRFC6962Checkpoint(v.Data, e.Name, e.Key.Public()); err == nil {
 			pubSize = sth.Size
 		}
@@ -740,7 +775,7 @@ func (e *LogEnv) auditStoredLocked(w *World, size, maxTimestamp, beforeSeq int64
 	for n := int64(0); n*256 < size; n++ {
 		wd := int(min(256, size-n*256))
 		key := refTilePath(TileCoord{-1, n, wd})
-		v := w.cur(key)
+		v := w.cur(e.NS + key)
 		if v == nil {
 			return []AuditProblem{{"missing", key + " missing"}}
 		}
@@ -777,7 +812,7 @@ func (e *LogEnv) auditWith(w *World, size, maxTimestamp, beforeSeq int64, stored
 	}
 	atomic.AddInt64(&e.auditN, 1)
 	get := func(key string) ([]byte, bool) {
-		vs := w.Objs[key]
+		vs := w.Objs[e.NS+key]
 		if len(vs) == 0 {
 			return nil, false
 		}
@@ -1147,8 +1182,13 @@ func (e *LogEnv) checkAck(a *Ack) {
 }
 
 func (e *LogEnv) checkAckStorage(a *Ack, want *RefEntry) {
-	// (1) the checkpoint readable at the ack instant covers the index
-	raw, ok := e.W.GetAsOf("checkpoint", a.Seq)
+	// (1) the checkpoint readable at the ack instant covers the index (in the
+	// bucket of the instance that acknowledged)
+	ns := ""
+	if a.Sub.Inst != nil {
+		ns = a.Sub.Inst.In.NS
+	}
+	raw, ok := e.W.GetAsOf(ns+"checkpoint", a.Seq)
 	if !ok {
 		e.violate("ack-without-checkpoint", "submission %d acknowledged (index %d) with no checkpoint object readable", a.Sub.ID, a.Index)
 		return
@@ -1170,7 +1210,7 @@ func (e *LogEnv) checkAckStorage(a *Ack, want *RefEntry) {
 	w := int(min(256, sth.Size-n*256))
 	found := false
 	for _, ww := range []int{w, 256} {
-		b, ok := e.W.GetAsOf(refTilePath(TileCoord{-1, n, ww}), a.Seq)
+		b, ok := e.W.GetAsOf(ns+refTilePath(TileCoord{-1, n, ww}), a.Seq)
 		if !ok {
 			continue
 		}
